@@ -1,4 +1,6 @@
+import os
 import pathlib
+import stat
 import subprocess
 import shutil
 import sqlite3
@@ -22,6 +24,19 @@ def register_command(subparsers):
         help="Path to the archive file to restore.",
     )
     parser.set_defaults(func=main)
+
+
+def _copy_output_file(src: str, dst: str) -> str:
+    """
+    Copies one non-directory entry of a task's output directory. Regular files
+    are copied together with their metadata; a named pipe (which `tar` archives
+    as such, but which cannot be "copied") is created again.
+    """
+    src_mode = os.lstat(src).st_mode
+    if stat.S_ISFIFO(src_mode):
+        os.mkfifo(dst, stat.S_IMODE(src_mode))
+        return dst
+    return shutil.copy2(src, dst)
 
 
 def extract_archive(archive_file: pathlib.Path, staging_path: pathlib.Path):
@@ -89,7 +104,12 @@ def main(args):
             # Symbolic links inside task outputs are restored as links (they were
             # archived as links); following them would copy their targets or fail
             # on links that do not resolve.
-            shutil.copytree(src_task_path, dest_task_path, symlinks=True)
+            shutil.copytree(
+                src_task_path,
+                dest_task_path,
+                symlinks=True,
+                copy_function=_copy_output_file,
+            )
             if not dest_task_path.is_dir():
                 raise ArchiveFileInvalid().add_extra_context(
                     "Missing copied archived task output for '{}' at version {}.".format(
